@@ -115,7 +115,8 @@ def _sync(ms: MS, out: CaseOut, use_check: bool, where: str) -> None:
 # -- commands really in flight together (threading subsystem) -------------------------
 
 BURST_OPS = ['append', 'append', 'store', 'store', 'nstore', 'expunge',
-             'copy', 'move', 'move', 'fetch', 'noop', 'del']
+             'copy', 'move', 'move', 'fetch', 'noop', 'del', 'check',
+             'check']
 
 
 def _burst_case(case: dict[str, Any]) -> CaseOut:
@@ -225,6 +226,8 @@ def _burst_case(case: dict[str, Any]) -> CaseOut:
                 elif op == 'fetch' and n:
                     cmd = b'FETCH 1:* (UID FLAGS)'
                     nonuid = True
+                elif op == 'check':
+                    cmd = b'CHECK'       # housekeeping on the UID list
                 else:
                     cmd = b'NOOP'
                 tag = c.next_tag()
